@@ -400,7 +400,12 @@ class Engine:
         vs = self.mir.enums.get(head)
         if vs is None: raise Unsupported(f'downcast on unknown/ambiguous enum {head!r} ({ty!r})')
         if name not in vs: raise Unsupported(f'variant {name} not in enum {head}')
-        return vs.index(name)
+        return self.discr(head, name)
+
+    def discr(self, enum, name):
+        from .rsdefs import EXPLICIT_DISCRIMINANTS
+        if enum in EXPLICIT_DISCRIMINANTS: return EXPLICIT_DISCRIMINANTS[enum][name]
+        return self.mir.enums[enum].index(name)
 
     def resolve(self, pe, fr):
         k = pe[0]
@@ -563,10 +568,10 @@ class Engine:
             segs = [s for s in strip_generics(path).split('::') if s]
             enums = self.mir.enums
             if len(segs) >= 2 and enums.get(segs[-2]) and segs[-1] in enums[segs[-2]]:
-                idx = enums[segs[-2]].index(segs[-1]); return EnumV(idx, {idx: Agg(ops)})
+                idx = self.discr(segs[-2], segs[-1]); return EnumV(idx, {idx: Agg(ops)})
             head = type_head(dest_ty)
             if len(segs) == 1 and enums.get(head) and segs[0] in enums[head]:
-                idx = enums[head].index(segs[0]); return EnumV(idx, {idx: Agg(ops)})
+                idx = self.discr(head, segs[0]); return EnumV(idx, {idx: Agg(ops)})
             if names and self.mir.structs.get(segs[-1]):
                 order = self.mir.structs[segs[-1]]
                 f = [None] * len(order)
